@@ -640,6 +640,35 @@ theorem get_namespace_copies_context (S : TSet) (fuel id : Nat) (uri : Str) (st 
         pure n) { st with ctxs := st.ctxs ++ [c] } := by
   simp only [getNsApi, bind_apply, cacheGet, hcache, Option.map_none, getNs, ho, getCtx, hc, newCtx]
 
+/-- `get_namespace_memo_keyed_by_receiver`: the per-render memo of `get_namespace` is keyed by (receiver namespace, uri):
+an entry made for another receiver `id1` with the *same* raw `uri` is not used for `id2`, which performs its own
+`_lookup_template(uri, relativeto = id2's _templateuri)` – so two templates in different directories that both call
+`local.get_namespace("helper.html")` in one render each get the `helper.html` beside them. -/
+theorem get_namespace_memo_keyed_by_receiver (S : TSet) (fuel id1 id2 n : Nat) (uri : Str) (st : St) (o : NsObj) (c : Ctx)
+    (hne : id1 ≠ id2) (hcache : st.cache.find? (·.1 = CacheKey.api id2 uri) = none) (ho : st.nss[id2]? = some o)
+    (hc : st.ctxs[o.ctx]? = some c) :
+    getNsApi S fuel id2 uri { st with cache := (CacheKey.api id1 uri, n) :: st.cache } =
+      (do
+        let (u, tt) ← lookupTemplate S .api uri o.turi
+        let m ← newNs ⟨uri, .tmpl u, [], none, st.ctxs.length⟩
+        let _ ← populateSelf S fuel st.ctxs.length u tt (some m)
+        cachePut (.api id2 uri) m
+        pure m) { st with cache := (CacheKey.api id1 uri, n) :: st.cache, ctxs := st.ctxs ++ [c] } := by
+  have hk : ¬ (CacheKey.api id1 uri = CacheKey.api id2 uri) := fun h => by cases h; exact hne rfl
+  have hfind : List.find? (fun x => decide (x.1 = CacheKey.api id2 uri)) ((CacheKey.api id1 uri, n) :: st.cache) = none := by
+    simp [hk, hcache]
+  simp only [getNsApi, bind_apply, cacheGet, hfind, Option.map_none, getNs, ho, getCtx, hc, newCtx]
+
+def sameRelativeWitness : TSet :=
+  ⟨[(s "/main", ⟨[], none, [], [], [.incl (s "/d1/c") [], .incl (s "/d2/c") []]⟩),
+    (s "/d1/c", ⟨[], none, [], [], [.apiNs .loc (s "helper") sBody]⟩),
+    (s "/d2/c", ⟨[], none, [], [], [.apiNs .loc (s "helper") sBody]⟩),
+    (s "/d1/helper", ⟨[], none, [], [], [.text (s "[h1]")]⟩), (s "/d2/helper", ⟨[], none, [], [], [.text (s "[h2]")]⟩)],
+   [], [], []⟩
+
+/-- non-vacuity, on a whole render: the same relative string from two directories reaches two templates -/
+example : output (render sameRelativeWitness 40 (s "/main") [] St.empty).st = s "[h1][h2]" := by decide +kernel
+
 /-- `get_namespace_context_partial`: … which is the cleaned context the `<%namespace>` tag would use (`self` is overwritten
 by `_populate_self_namespace` in both cases) – **guard: the receiver's context has neither `parent` nor `next`** -/
 theorem get_namespace_context_partial (c : Ctx) (guard : c.parent = none ∧ c.next = none) :
